@@ -75,6 +75,27 @@ def jobs(tier):
     return js
 
 
+def bounds(tier):
+    return {
+        "history_length": "all skeletons over {BUY, INTEREST, SELL, MOVE-with-fee} of length 3 and selected of length 4" if tier == "quick" else "all skeletons of length 4 and selected of length 5",
+        "methods": list(METHODS),
+        "schedules": "single method, and every ordered pair (m1 from 2020, m2 from 2021)",
+        "amounts": "k*1e-11, k in [1, 1e20]",
+        "prices": "k*1e-4, k in [1, 1e10]",
+        "instants": "microseconds inside the window years (1 year; 2 years for schedules), ties allowed, non-decreasing in slot order",
+        "utc_offsets": "jobs marked tz: one symbolic offset per slot, whole minutes in [-720, 840]; otherwise UTC",
+        "outside": ["longer histories", "per-wallet application", "tie-break order among equally ranked lots", "schedules with more than 2 methods", "rows not in time order (C17)"],
+    }
+
+
+def assumptions():
+    return ["allow_negative_balances=True (only the tax engine's own coverage error is in play; C08 covers the balance guard)", "rows follow slot order and slot order follows time (ties allowed)", "out-transactions have no exchange-supplied crypto_out_with_fee"]
+
+
+def weight(spec):
+    return len(spec["code"]) * 10 + (5 if spec["tz"] else 0) + (3 if spec["sell_all"] else 0) + (2 if any(m in ("hifo", "lofo") for m in spec["schedule"].values()) else 0)
+
+
 def describe(spec):
     return "%s %s%s%s" % (spec["code"], ",".join("%s:%s" % kv for kv in sorted(spec["schedule"].items())), " tz" if spec["tz"] else "", " +sell-all" if spec["sell_all"] else "")
 
